@@ -17,7 +17,10 @@ Keys == << [k |-> "Base Header Level", v |-> "2",       control |-> TRUE,  body 
            [k |-> "Author",            v |-> "Some One", control |-> FALSE, body |-> FALSE],
            [k |-> "Custom Key",        v |-> "x: y",    control |-> FALSE, body |-> FALSE],
            [k |-> "CSS",               v |-> "style.css", control |-> FALSE, body |-> FALSE],
-           [k |-> "Date",              v |-> "2020-01-01", control |-> FALSE, body |-> FALSE] >>
+           [k |-> "Date",              v |-> "2020-01-01", control |-> FALSE, body |-> FALSE],
+           \* ordinary keys whose names merely BEGIN like the keys that insert a header / footer file
+           [k |-> "MMD Footer Note",   v |-> "see the appendix", control |-> FALSE, body |-> FALSE],
+           [k |-> "MMD Header Style",  v |-> "plain",   control |-> FALSE, body |-> FALSE] >>
 RECURSIVE Cat(_)
 Cat(ss) == IF ss = <<>> THEN "" ELSE Head(ss) \o Cat(Tail(ss))
 BlockSrc(m, yaml) == IF m = <<>> THEN "" ELSE (IF yaml THEN "---\n" ELSE "") \o Cat([i \in 1 .. Len(m) |-> Keys[m[i]].k \o ": " \o Keys[m[i]].v \o "\n"]) \o (IF yaml THEN "---\n" ELSE "") \o "\n"
